@@ -180,6 +180,7 @@ class StreamProp(Prop):
     canon: 'full' | 'ar'
     """
     streams = []   # [(name, rules)]
+    variant_builds = []   # [(tag, rustflags)]: the oracle rules are applied to these builds of the harness as well
 
     def classify(self, stream, field, case, got, want, impl, model):
         return f"{field}:{ar(got)}-where-spec-says-{ar(want)}"
@@ -242,6 +243,35 @@ class StreamProp(Prop):
                     else:
                         if len(res.adequacy) < 50:
                             res.adequacy.append(f"{case[:80]}: ref {ifield}={got} spec {mfield}={want}")
+            # the same cases through other builds of the same tree: direct oracle only
+            for tag, flags in self.variant_builds:
+                vb = build_variant(ctx, tag, rustflags=flags)
+                if vb is None or model is None:
+                    continue
+                vpath = cases_path + "." + tag
+                rc, verr = ctx["run_lines"](vb, [name, "run"], cases_path, vpath)
+                with open(vpath, errors="replace") as f:
+                    vimpl = f.read().splitlines()
+                if rc != 0 or len(vimpl) != len(cases):
+                    res.oracle_failures.append(dict(key=f"{name}:process-abort:{tag}-build", case=cases[min(len(vimpl), len(cases) - 1)],
+                                                    detail=f"{tag} build of the harness exited abnormally after {len(vimpl)} of {len(cases)} cases: {verr[-300:]}"))
+                res.distribution[f"build:{tag}"] += min(len(vimpl), len(cases))
+                for i in range(min(len(vimpl), len(cases), len(model))):
+                    I = ctx["parse_fields"](vimpl[i])
+                    M = ctx["parse_fields"](model[i])
+                    for kind, ifield, mfield, canon in rules:
+                        if kind != "oracle" or ifield not in I or mfield not in M:
+                            continue
+                        got = canon_impl_verdict(I[ifield]) if canon in ("full", "ar") else I[ifield]
+                        want = M[mfield]
+                        if canon == "ar":
+                            got, want = ar(got), ar(want)
+                        if got == want:
+                            continue
+                        key = f"{name}:{ifield}:panic" if got == "PANIC" else self.classify(name, ifield, cases[i], got, want, I, M)
+                        if key is None:
+                            continue
+                        res.oracle_failures.append(dict(key=key + f"|{tag}-build", case=cases[i], detail=f"({tag} build) impl {ifield}={got} spec {mfield}={want}"))
 
     def tally(self, res, I, M):
         pass
@@ -894,6 +924,8 @@ class C03(StreamProp):
             "non-trivial = the text is accepted and contains a container or a string")
     trusted = ["number classification/rounding is the executable Spec.Num (exact big-integer arithmetic); see C07 for what is proved about it"]
     assumptions = []
+    # the portable build (SSE2 vectors, `v256.rs` built from two 128-bit halves, the fallback helpers): what a user without AVX2 gets
+    variant_builds = [("base", "--cfg sonic_rs_verif -C target-cpu=x86-64")]
     streams = [("c03", [("corr", "whole", "m.dom", "dump")] + [("oracle", f, "spec", "dump") for f in ("whole", "whole_str", "embedded")]
                 + [("oracle", "stream2", "spec.pre", "dump"), ("oracle", "rawnum", "spec.raw.pre", "dump"), ("oracle", "lossy", "spec.lossy.pre", "dump"),
                    ("oracle", "rawnum2", "spec.raw.pre", "dump"), ("oracle", "rawnum_emb", "spec.raw", "dump")])]
